@@ -1,3 +1,5 @@
 fn main() {
-    vcore::engine::main(g_codec::all_subs(), &g_codec::assumptions)
+    // run as a supervised child: a stack overflow or another fatal signal inside a check is reported with the case
+    // that was running, reproduced in a fresh process and only then turned into a VIOLATION line
+    g_codec::total::supervise("raw-input", || vcore::engine::main(g_codec::all_subs(), &g_codec::assumptions))
 }
